@@ -555,6 +555,7 @@ int KSI_TreeBuilder_close(KSI_TreeBuilder *builder) {
 	int res = KSI_UNKNOWN_ERROR;
 	KSI_TreeNode *root = NULL;
 	KSI_TreeNode *tmp = NULL;
+	size_t joins = 0;
 
 	if  (builder == NULL) {
 		res = KSI_INVALID_ARGUMENT;
@@ -569,7 +570,6 @@ int KSI_TreeBuilder_close(KSI_TreeBuilder *builder) {
 		/* Finalize the forest of complete binary trees into a single tree. */
 		for (i = 0; i < KSI_TREE_BUILDER_STACK_LEN; i++) {
 			KSI_TreeNode *node = builder->stack[i];
-			builder->stack[i] = NULL;
 
 			if (node == NULL) continue;
 
@@ -581,6 +581,7 @@ int KSI_TreeBuilder_close(KSI_TreeBuilder *builder) {
 
 				root = tmp;
 				tmp = NULL;
+				joins++;
 			}
 		}
 	} else {
@@ -594,11 +595,25 @@ int KSI_TreeBuilder_close(KSI_TreeBuilder *builder) {
 		goto cleanup;
 	}
 
+	/* The merge is complete: only now the forest is handed over to the root. */
+	memset(builder->stack, 0, sizeof(builder->stack));
 	builder->rootNode = root;
+	joins = 0;
 
 	res = KSI_OK;
 
 cleanup:
+
+	/* Undo a partial merge: the stack still owns the subtrees. */
+	while (joins-- > 0) {
+		KSI_TreeNode *next = root->rightChild;
+		root->leftChild->parent = NULL;
+		next->parent = NULL;
+		root->leftChild = NULL;
+		root->rightChild = NULL;
+		KSI_TreeNode_free(root);
+		root = next;
+	}
 
 	KSI_TreeNode_free(tmp);
 
